@@ -36,6 +36,9 @@ func symxC02() {
 		id := int32(10 + k)
 		symxTick()
 		before := len(pubC.written())
+		// the local log may refuse this entry (write fault, oversized entry): then the publish
+		// must not be acknowledged - an acknowledged one must still reach the subscriber
+		b.log.failAppend = rt.Bool("log_refuses_the_entry")
 		err := p.proc.Process(b.ctx, pubS, pubC, &packet.Publish{Header: &packet.Header{Qos: qos}, MessageId: id, Topic: []byte("t/x"), Payload: payload})
 		rt.Assert(err == nil, "C02.publish_accepted")
 		rt.Quiesce()
@@ -56,9 +59,10 @@ func symxC02() {
 				acked = acked || a.MessageId == id
 			}
 		}
-		if qos > 0 {
+		if qos > 0 && !b.log.failAppend {
 			rt.Assert(acked, "C02.stored_publish_is_acknowledged")
 		}
+		b.log.failAppend = false
 		all = append(all, sent{payload, acked})
 	}
 	got := symxPublishes(subC.written())
